@@ -137,6 +137,10 @@ func (fr *frame) builtin(x ssa.CallInstruction, b *ssa.Builtin, st *State) Val {
 				js := num(int64(j))
 				s.assert(implies(app("<", js, t.Len), eq(sel(r, add(add(a.Off, a.Len), js)), sel(t.Elems[i], add(t.Off, js)))))
 			}
+			// the appended part, stated over the absolute index of the result
+			ka := sym(fmt.Sprintf("k!p%d", len(s.Items)))
+			s.assert(fmt.Sprintf("(forall ((%s Int)) (! (=> (and (<= %s %s) (< %s (+ %s %s))) (= (select %s %s) (select %s (- %s %s)))) :pattern ((select %s %s))))",
+				ka, a.Len, ka, ka, a.Len, t.Len, r, ka, t.Elems[i], ka, a.Len, r, ka))
 		}
 		return SliceV{Elem: a.Elem, Len: s.define("len", SInt, add(a.Len, t.Len)), Off: a.Off, Nil: and(a.Nil, eq(t.Len, "0")), Elems: elems}
 	case "min", "max":
@@ -320,6 +324,15 @@ func (fr *frame) applyContractEnv(x ssa.CallInstruction, c2 *Contract, name stri
 		pst.reach = s.define("panicpath", SBool, and(st.reach, pcond))
 		fr.exits = append(fr.exits, &Exit{Kind: "panic", St: pst, Why: "call to " + name + " may panic", Pos: x.Pos(), PanicV: fr.errorPanicValue(pst)})
 	}
+	if buildsNodes(c2) && !(c2.Modifies != nil && len(c2.Modifies) == 0) {
+		var touched []string
+		for _, l := range locs {
+			if strings.HasPrefix(l.leaf, "ast.") && l.addr != "" {
+				touched = append(touched, l.addr)
+			}
+		}
+		fx.havocGhost(st, pre.now, touched)
+	}
 	if !c2.AllocsNone {
 		n := s.fresh("now", SInt)
 		s.assert(app(">=", n, st.now))
@@ -339,6 +352,11 @@ func (fr *frame) applyContractEnv(x ssa.CallInstruction, c2 *Contract, name stri
 		fr.assumeTypeFacts(st, res, rt)
 	}
 	fx.noteObj(res)
+	if rt.Len() == 1 {
+		fx.noteNodeRefs(res, rt.At(0).Type())
+	} else if rt.Len() > 1 {
+		fx.noteNodeRefs(res, rt)
+	}
 	env2 := *env
 	env2.cur = st
 	env2.old = pre
@@ -411,7 +429,9 @@ func (fr *frame) checkFrameLoc(st *State, l modLoc, pos token.Position, callee s
 		al = append(al, app(">=", app("birth", l.addr), fx.pre.now))
 	}
 	if l.addr == "" && l.except != "" {
-		al = append(al, "false") // placeholder so that or() below is well-formed
+		// the callee writes its current object or objects it allocates: fine when that object was
+		// itself allocated during this call
+		al = append(al, app(">=", app("birth", l.except), fx.pre.now))
 	}
 	for _, m := range c.Modifies {
 		for _, ml := range fx.modLocs(fx.fn, c, m, nil, fx.pre) {
